@@ -139,6 +139,9 @@ func (r *Replayer) Run(idx int, b *Behaviour) error {
 			}
 		}
 		r.Stats["events-expected"] += len(expEv)
+		for _, f := range rig.cleanup {
+			f()
+		}
 		rig, expEv = nil, nil
 	}
 	c := Concretise(b, r.Genesis, r.Seed+int64(idx))
